@@ -79,6 +79,21 @@ func (c *completion) skipPositional(s *parseState, n int) {
 	}
 }
 
+// passThrough does what the parser does with a word it does not interpret: it
+// goes to the next positional argument, or else to the remaining arguments,
+// after which no more commands are recognized.
+func (c *completion) passThrough(s *parseState, arg string) {
+	if len(s.positional) > 0 {
+		if !s.positional[0].isRemaining() {
+			// Don't advance beyond a remaining positional arg (because
+			// it consumes all subsequent args).
+			s.positional = s.positional[1:]
+		}
+	} else {
+		s.retargs = append(s.retargs, arg)
+	}
+}
+
 func (c *completion) completeOptionNames(s *parseState, prefix string, match string, short bool) []Completion {
 	if short && len(match) != 0 {
 		return []Completion{
@@ -177,11 +192,16 @@ func (c *completion) complete(args []string) []Completion {
 
 	var opt *Option
 
+	// Set when the parser passes the rest of the command line through
+	// without looking for options or commands in it.
+	terminated := false
+
 	for len(s.args) > 1 {
 		arg := s.pop()
 
 		if (c.parser.Options&PassDoubleDash) != None && arg == "--" {
 			opt = nil
+			terminated = true
 			c.skipPositional(s, len(s.args)-1)
 
 			break
@@ -213,7 +233,9 @@ func (c *completion) complete(args []string) []Completion {
 					}
 				}
 
-				if o == nil && (c.parser.Options&PassAfterNonOption) != None {
+				if o == nil && (c.parser.Options&IgnoreUnknown) != None {
+					c.passThrough(s, arg)
+				} else if o == nil && (c.parser.Options&PassAfterNonOption) != None {
 					opt = nil
 					c.skipPositional(s, len(s.args)-1)
 
@@ -227,14 +249,18 @@ func (c *completion) complete(args []string) []Completion {
 				}
 			}
 		} else {
-			if len(s.positional) > 0 {
-				if !s.positional[0].isRemaining() {
-					// Don't advance beyond a remaining positional arg (because
-					// it consumes all subsequent args).
-					s.positional = s.positional[1:]
-				}
-			} else if cmd, ok := s.lookup.commands[arg]; ok {
+			if (c.parser.Options&PassAfterNonOption) != None && s.lookup.commands[arg] == nil {
+				opt = nil
+				terminated = true
+				c.skipPositional(s, len(s.args))
+
+				break
+			}
+
+			if cmd, ok := s.lookup.commands[arg]; ok && len(s.positional) == 0 && len(s.retargs) == 0 {
 				cmd.fillParseState(s)
+			} else {
+				c.passThrough(s, arg)
 			}
 
 			opt = nil
@@ -247,7 +273,7 @@ func (c *completion) complete(args []string) []Completion {
 	if opt != nil {
 		// Completion for the argument of 'opt'
 		ret = c.completeValue(opt.value, "", lastarg)
-	} else if argumentStartsOption(lastarg) {
+	} else if !terminated && argumentStartsOption(lastarg) {
 		// Complete the option
 		prefix, optname, islong := stripOptionPrefix(lastarg)
 		optname, split, argument := splitOption(prefix, optname, islong)
@@ -279,7 +305,7 @@ func (c *completion) complete(args []string) []Completion {
 	} else if len(s.positional) > 0 {
 		// Complete for positional argument
 		ret = c.completeValue(s.positional[0].value, "", lastarg)
-	} else if len(s.command.commands) > 0 {
+	} else if !terminated && len(s.retargs) == 0 && len(s.command.commands) > 0 {
 		// Complete for command
 		ret = c.completeCommands(s, lastarg)
 	}
